@@ -1164,6 +1164,13 @@ fn build_evidence(prop: &str, tier: &str, seed: u64, a: &Agg, per_scenario: &[Va
 fn miri_case(prop: &str, scenario: &str, seed: u64, run: u64, max_ops: usize, force_none: bool) -> (Config, Vec<Op>) {
     let (cfg, mut ops) = gen::generate(prop, scenario, seed, run);
     ops.truncate(max_ops);
+    for o in ops.iter_mut() {
+        // a burst of 65 536 calls would take days under the interpreter
+        match o {
+            Op::Burst { n, .. } | Op::SearchBurst { n, .. } => *n = (*n).min(3),
+            _ => {}
+        }
+    }
     if force_none {
         for o in ops.iter_mut() {
             match o {
@@ -1224,14 +1231,44 @@ fn miri_sweep(seed: u64, procs: usize) -> MiriReport {
         if none {
             c.arg("--force-lang-none");
         }
-        if let Ok(ch) = c.stdout(Stdio::piped()).stderr(Stdio::piped()).stdin(Stdio::null()).spawn() {
-            children.push((scenario, start, count, none, ch));
+        // output goes to files: nobody reads a pipe while we poll for the exit
+        let outp = tmp_dir().join(format!("miri-{}-{}.out", std::process::id(), i));
+        let errp = tmp_dir().join(format!("miri-{}-{}.err", std::process::id(), i));
+        let (of, ef) = match (std::fs::File::create(&outp), std::fs::File::create(&errp)) {
+            (Ok(a), Ok(b)) => (a, b),
+            _ => continue,
+        };
+        if let Ok(ch) = c.stdout(Stdio::from(of)).stderr(Stdio::from(ef)).stdin(Stdio::null()).spawn() {
+            children.push((scenario, start, count, none, ch, outp, errp));
         }
     }
-    for (scenario, start, count, none, ch) in children {
-        if let Ok(o) = ch.wait_with_output() {
-            let out = String::from_utf8_lossy(&o.stdout).to_string();
-            let err = String::from_utf8_lossy(&o.stderr).to_string();
+    // an interpreter process that is still running after 25 minutes is killed and counted as
+    // "timed out" (slow is not undefined behaviour)
+    let deadline = Instant::now() + Duration::from_secs(1500);
+    for (scenario, start, count, none, mut ch, outp, errp) in children {
+        loop {
+            match ch.try_wait() {
+                Ok(Some(_)) => break,
+                Ok(None) if Instant::now() > deadline => {
+                    let _ = ch.kill();
+                    rep.note = format!("{} a Miri process was killed after 25 minutes ({} from run {});", rep.note, scenario, start);
+                    break;
+                }
+                Ok(None) => std::thread::sleep(Duration::from_millis(500)),
+                Err(_) => break,
+            }
+        }
+        let killed = rep.note.contains(&format!("({} from run {})", scenario, start));
+        if let Ok(status) = ch.wait() {
+            let out = std::fs::read_to_string(&outp).unwrap_or_default();
+            let err = std::fs::read_to_string(&errp).unwrap_or_default();
+            let _ = std::fs::remove_file(&outp);
+            let _ = std::fs::remove_file(&errp);
+            if killed {
+                continue;
+            }
+            struct O { status: std::process::ExitStatus }
+            let o = O { status };
             let done: Vec<u64> = out.lines().filter(|l| l.starts_with("MIRI-RUN ")).filter_map(|l| l.split(' ').nth(1).and_then(|x| x.parse().ok())).collect();
             rep.runs += done.len() as u64;
             let ub = err.contains("Undefined Behavior") || err.contains("error: unsupported operation") || out.lines().any(|l| l.starts_with("V "));
